@@ -1405,9 +1405,10 @@ func (s *State) checkASAInterfaces() error {
 	getImplicitInterfaces := func(cfg *Config) map[string][]*cmd {
 		m := make(map[string][]*cmd)
 		for _, c := range cfg.lookup["access-group"][""] {
+			// access-group $REF in|out interface INTF [per-user-override|control-plane]
 			tokens := strings.Fields(c.parsed)
-			if len(tokens) == 5 {
-				m[tokens[4]] = []*cmd{c}
+			if len(tokens) >= 5 && tokens[3] == "interface" {
+				m[tokens[4]] = append(m[tokens[4]], c)
 			}
 		}
 		for _, c := range cfg.lookup["crypto map interface"][""] {
